@@ -23,6 +23,7 @@ Reading guide
 import EPV.Lemmas.Globals
 import EPV.Lemmas.GlobalsThreads
 import EPV.Lemmas.GlobalsXmlText
+import EPV.Lemmas.GlobalsXmlSubset
 namespace EPV.C19
 open EPV.Globals
 
@@ -342,6 +343,116 @@ example :
     (XmlText.scanProlog (renderXmlDecl xd ++ (renderMisc items ++ [' '] ++ "<r>t</r>".toList))).doctype = none ∧
     (XmlText.scanProlog (renderXmlDecl xd ++ (renderMisc items ++ [' '] ++
       "<!DOCTYPE r [<!ENTITY e \"EXP\">]><r>&e;</r>".toList))).forbidden = true := by
+  decide +kernel
+
+/-! ## The inside of the DOCTYPE declaration against the grammar of XML 1.0 §2.8 / §4.2
+
+Grammar (`PrologGrammar` in EPV/Spec/GlobalsSpec.lean): `DoctypeG` = S Name (S ExternalID)? S?
+('[' intSubset ']' S?)? '>';  the internal subset is a list of `SubItem`s — comments, PIs,
+parameter-entity references, entity declarations (`EntD`: general / parameter, with an entity value
+whose quoted text may contain `>` and `]`, or a SYSTEM / PUBLIC external identifier, optionally
+`NDATA`), element / attribute-list / notation declarations (characters and quoted literals up to
+`>`) — each preceded by optional white space. -/
+
+open EPV.GlobalsSpec.PrologGrammar in
+/-- **The internal subset is read back exactly** — on every internal-subset text the grammar
+derives, the scanner returns the declarations the grammar derives (`subsetDecls`): every entity
+declaration, with its name, kind and value, as long as no parameter-entity reference has been
+passed, inert ones afterwards (XML 1.0 §5.1), and the text after the closing `]`. -/
+theorem scanner_parses_internal_subset (items : List (List Char × SubItem)) (wi rest : List Char)
+    (hi : subsetWf items = true) (hwi : wsOk wi = true) :
+    XmlText.intSubset ((renderSubset items ++ (wi ++ ']' :: rest)).length + 1)
+        (renderSubset items ++ (wi ++ ']' :: rest)) [] true
+      = (subsetDecls true items, some rest) := by
+  have hlen : items.length < (renderSubset items ++ (wi ++ ']' :: rest)).length + 1 := by
+    have := XmlText.length_renderSubset items
+    simp only [List.length_append]; omega
+  simpa using XmlText.intSubset_parses items wi rest _ [] true hlen hi hwi
+
+open EPV.GlobalsSpec.PrologGrammar in
+/-- **The whole prolog is read back exactly.**  For every text
+`XMLDecl? Misc* S? '<!DOCTYPE' doctypedecl Misc* S? <root…` the grammar derives, `scanProlog`
+records the grammar's DOCTYPE value — is there an external identifier, and the declarations of the
+internal subset — marks the declaration complete, counts the `Misc` items before it and stops at
+the root element's start tag. -/
+theorem scanner_parses_prolog (xd : Option (Char × List Char)) (m1 : List (List Char × MiscItem))
+    (p1 : List Char) (d : DoctypeG) (m2 : List (List Char × MiscItem)) (p2 tail : List Char)
+    (hx : xmlDeclWf xd = true) (hm1 : miscWf m1 = true) (hp1 : p1.all XmlText.isWs = true)
+    (hd : d.wf = true) (hm2 : miscWf m2 = true) (hp2 : p2.all XmlText.isWs = true)
+    (ht : startsRoot tail = true) :
+    let p := XmlText.scanProlog (XmlText.prologText xd m1 p1 d m2 p2 tail)
+    p.doctype = some d.value ∧ p.complete = true ∧ p.leading = m1.length ∧ p.rest = some tail ∧
+      p.xmlDecl = xd.isSome :=
+  XmlText.scanProlog_parses xd m1 p1 d m2 p2 tail hx hm1 hp1 hd hm2 hp2 ht
+
+/-- did the scan record a declaration on which `SafeExpatParser`'s entity handlers fire? -/
+def recordsEntityDecl (p : XmlText.Prolog) : Bool :=
+  match p.doctype with
+  | some (_, decls) => decls.any Decl.forbiddenDecl
+  | none => false
+
+open EPV.GlobalsSpec.PrologGrammar in
+/-- **`scanner_records_entity_iff`.**  On every prolog text the grammar derives, the scanner
+records an entity declaration **iff** the grammar derives a processed one in the internal subset
+(an `EntityDecl` — general, parameter, external or unparsed — not preceded by a parameter-entity
+reference); in that case `fn:parse-xml` with the default parser refuses the text. -/
+theorem scanner_records_entity_iff (xd : Option (Char × List Char)) (m1 : List (List Char × MiscItem))
+    (p1 : List Char) (d : DoctypeG) (m2 : List (List Char × MiscItem)) (p2 tail : List Char)
+    (hx : xmlDeclWf xd = true) (hm1 : miscWf m1 = true) (hp1 : p1.all XmlText.isWs = true)
+    (hd : d.wf = true) (hm2 : miscWf m2 = true) (hp2 : p2.all XmlText.isWs = true)
+    (ht : startsRoot tail = true) :
+    (recordsEntityDecl (XmlText.scanProlog (XmlText.prologText xd m1 p1 d m2 p2 tail)) = true ↔
+      (match d.subset with
+        | none => false
+        | some (items, _, _) => derivesEntityDecl true items) = true) ∧
+    ((match d.subset with
+        | none => false
+        | some (items, _, _) => derivesEntityDecl true items) = true →
+      parseXmlText true (String.ofList (XmlText.prologText xd m1 p1 d m2 p2 tail)) = .error .forbidden) := by
+  obtain ⟨hdt, _⟩ := XmlText.scanProlog_parses xd m1 p1 d m2 p2 tail hx hm1 hp1 hd hm2 hp2 ht
+  have hrec : recordsEntityDecl (XmlText.scanProlog (XmlText.prologText xd m1 p1 d m2 p2 tail))
+      = (match d.subset with
+        | none => false
+        | some (items, _, _) => derivesEntityDecl true items) := by
+    unfold recordsEntityDecl
+    rw [hdt]
+    unfold DoctypeG.value
+    cases d.subset with
+    | none => rfl
+    | some p => obtain ⟨items, wi, w3⟩ := p; exact XmlText.subsetDecls_forbidden true items
+  refine ⟨by rw [hrec], fun h => ?_⟩
+  have hf : (XmlText.scanProlog (XmlText.prologText xd m1 p1 d m2 p2 tail)).forbidden = true := by
+    have h2 := hrec.trans h
+    unfold recordsEntityDecl at h2
+    unfold XmlText.Prolog.forbidden
+    cases hdd : (XmlText.scanProlog (XmlText.prologText xd m1 p1 d m2 p2 tail)).doctype with
+    | none => simp [hdd] at h2
+    | some v => obtain ⟨e, ds⟩ := v; simp only [hdd] at h2; simp [h2]
+  simp [parseXmlText, String.toList_ofList, hf]
+
+open EPV.GlobalsSpec.PrologGrammar in
+/-- the grammar theorems are not vacuous (test on literals): a DOCTYPE with a PUBLIC identifier and
+an internal subset holding a comment, an attribute-list declaration with `>` in a literal, a general
+entity whose value contains `]>`, a parameter entity, its reference, and a further entity (inert) -/
+example :
+    let d : DoctypeG := {
+      w1 := [' '], name := ['r'],
+      ext := some ([' '], { pub := some (⟨true, "-//x".toList⟩, [' ']), wk := [' '], sys := ⟨false, "x.dtd".toList⟩ }),
+      w2 := [' '],
+      subset := some ([
+        ([], .comment " <!ENTITY no \"x\"> ".toList),
+        (['\n'], .attlist [.ch ' ', .ch 'r', .ch ' ', .ch 'a', .ch ' ', .lit ⟨true, "d>f".toList⟩]),
+        ([], .entity { w1 := [' '], param := none, name := ['e'], w2 := [' '],
+                       defn := .value ⟨true, "]>EXP".toList⟩, w3 := [] }),
+        ([], .entity { w1 := [' '], param := some [' '], name := ['p'], w2 := [' '],
+                       defn := .value ⟨false, "x".toList⟩, w3 := [' '] }),
+        ([' '], .peRef ['p']),
+        ([], .entity { w1 := [' '], param := none, name := ['z'], w2 := [' '],
+                       defn := .ndata { pub := none, wk := [' '], sys := ⟨true, "u".toList⟩ } [' '] [' '] ['n'],
+                       w3 := [] })], [' '], []) }
+    d.wf = true ∧
+    d.value = (true, [.comment, .attlist, .entity "e" "]>EXP", .paramEntity "p", .element]) ∧
+    (XmlText.doctypeDecl (d.render ++ "<r/>".toList)).1 = d.value := by
   decide +kernel
 
 /-! ## The three repaired defects, as theorems about the earlier code (record) -/
